@@ -47,8 +47,8 @@ def o64 : Option W64 → String
 /-- rendering of a spec value of a type: decimal for JS-number types, `high:low` for 64-bit types -/
 def renderSpec (t : Ty) {w : Nat} (a : BitVec w) : String :=
   match t with
-  | .small τ => toString (repr τ.signed a)
-  | .big s => let v := repr s a; s!"{v / 4294967296}:{v % 4294967296}"
+  | .small τ => toString (valOf τ.signed a)
+  | .big s => let v := valOf s a; s!"{v / 4294967296}:{v % 4294967296}"
 
 def specBinStr (t : Ty) (op : BinOp) (x y : Int) : String :=
   match specBin t.signed op (BitVec.ofInt t.bits x) (BitVec.ofInt t.bits y) with
